@@ -13,8 +13,10 @@ def gen_case(ctx, idx, small=False):
     nroots = rng.choice([1, 1, 1, 2, 3])
     roots = []
     for i in range(nroots):
-        d = os.path.join(base, "r%d" % i)
-        os.mkdir(d)
+        # later roots often sit at another nesting level than the first one (each root's depth counts from that root)
+        up = rng.choice(["", "", "n%d" % i, "n%d/m" % i, "n%d/m/k" % i]) if i else rng.choice(["", "", "", "p/q"])
+        d = os.path.join(base, up, "r%d" % i)
+        os.makedirs(d)
         fstree.build(d, fstree.gen_tree(rng, max_entries=6 if small else rng.choice([3, 10, 25, 50]), max_depth=6,
                                         p_dir=rng.choice([0.3, 0.45, 0.6])))
         roots.append(d)
@@ -24,7 +26,7 @@ def gen_case(ctx, idx, small=False):
 
 
 def spellings(rng, base, root, single):
-    name = os.path.basename(root)
+    name = os.path.relpath(root, base)
     opts = [name, "./" + name, root, name + "/"]
     if single:
         opts.append(None)      # default root: cwd = the root itself, no FROM clause
@@ -96,7 +98,14 @@ def run(ctx):
             canon = os.path.realpath(s["root"])
             roots.append((walklib.opts_term(s["mn"], s["mx"], s["dfs"]), sp, canon, walklib.node_term(s["obs"]), fstree.count(s["obs"]) + 1))
         exprs.append(walklib.walk_expr(roots))
-    model = [walklib.parse_walk(t) for t in coq_eval(walklib.COQ_HEADER, exprs, ctx.scratch, tag="c01", shard=12)]
+    from .common import CheckError
+    try:
+        model = [walklib.parse_walk(t) for t in coq_eval(walklib.COQ_HEADER, exprs, ctx.scratch, tag="c01", shard=12)]
+    except CheckError as e:
+        if "coqc failed" not in str(e) or not ctx.proof_failure:
+            raise
+        ctx.notes.append("model.Walk could not be loaded after the proof failure; the binary is compared with the independent listing only")
+        model = [None] * len(jobs)
     st = dict(agreed=0, distinct=set(), samples=[], hist=collections.Counter())
     for j, r, m in zip(jobs, results, model):
         case = {"tree": j["case"]["base"], "cwd": j["cwd"], "argv": [j["query"]],
@@ -139,6 +148,9 @@ def run(ctx):
             ctx.violation("impl-violates-spec", "extra rows after the last root", input=case, observed=rows[pos:pos + 20])
             ok = False
         if not ok:
+            continue
+        if m is None:
+            st["hist"]["model_unavailable"] += 1
             continue
         mrows = [p for p, _ in m["rows"]]
         if not m["ok"] or mrows != rows or m["errs"]:
